@@ -12,6 +12,7 @@ import (
 const snippet = `package snip
 
 import (
+	"flag"
 	"sync"
 	"sync/atomic"
 )
@@ -157,6 +158,19 @@ func (p *P) PubBadCopy() { s := make([]int, 4); p.av.Store(s); copy(s, []int{1})
 func (p *P) PubBadPtr()  { i := &Inner{}; p.ap.Store(i); i.v = 2 }
 func (p *P) PubLoop()    { s := make([]int, 4); for k := 0; k < 2; k++ { s[k] = k; p.av.Store(s) } }
 
+func cloneFlag(f *flag.Flag) *flag.Flag { c := *f; return &c }
+
+type Q struct {
+	cfg  *flag.Flag // a foreign (caller-supplied) object behind a pointer
+	mine *Inner
+}
+
+func (q *Q) ThroughDirect()  { q.cfg.Name = "x" }
+func (q *Q) ThroughAlias()   { c := q.cfg; if c.Name == "" { c.Name = "x" } }
+func (q *Q) ThroughCloned()  { c := q.cfg; if c.Name == "" { c = cloneFlag(c); c.Name = "x" } }
+func (q *Q) ThroughMaybe(b bool) { c := q.cfg; if b { c = cloneFlag(c) }; c.Name = "x" }
+func (q *Q) ThroughListed()  { q.mine.v = 1 }
+
 var keepI *Inner
 var keep func()
 
@@ -274,6 +288,21 @@ func selfTest() int {
 			bad++
 		}
 	}
+	// writes through pointer fields / their local copies
+	for _, e := range []struct {
+		fn   string
+		want bool
+	}{{"Q.ThroughDirect", true}, {"Q.ThroughAlias", true}, {"Q.ThroughCloned", false}, {"Q.ThroughMaybe", true}} {
+		_, ok := got[e.fn+"|cfg|KWriteThrough"]
+		if ok != e.want {
+			fmt.Printf("selftest FAIL: KWriteThrough fact for %s on Q.cfg: got %v, expected %v\n", e.fn, ok, e.want)
+			bad++
+		}
+	}
+	if _, ok := got["Q.ThroughListed|mine|KWriteThrough"]; ok {
+		fmt.Println("selftest FAIL: a write to a field of a listed pointee must not be a KWriteThrough of the pointer field")
+		bad++
+	}
 	// call facts
 	type ce struct{ caller, callee, how, locks, written string }
 	gotc := map[string]outCall{}
@@ -355,6 +384,6 @@ func selfTest() int {
 		}
 		return 1
 	}
-	fmt.Printf("selftest ok: %d expectations\n", len(expected)+26)
+	fmt.Printf("selftest ok: %d expectations\n", len(expected)+31)
 	return 0
 }
